@@ -500,8 +500,12 @@ func c07r5(p *Prog, r *Reporter) {
 	name := p.FuncName(u)
 	// returns filters[idx].Filter loaded before the swap
 	retOK, delOK, reidxOK := false, false, false
-	for _, b := range u.Blocks {
-		if ret, isR := b.Instrs[len(b.Instrs)-1].(*ssa.Return); isR && len(ret.Results) == 1 {
+	var ublocks []*ssa.BasicBlock
+	for _, g := range withHelpers(p, u, 2) {
+		ublocks = append(ublocks, g.Blocks...)
+	}
+	for _, b := range ublocks {
+		if ret, isR := b.Instrs[len(b.Instrs)-1].(*ssa.Return); isR && len(ret.Results) == 1 && b.Parent() == u {
 			if strings.HasSuffix(apath(ret.Results[0]), ".Filter") && strings.Contains(apath(ret.Results[0]), "filters[") {
 				retOK = true
 			}
